@@ -1118,9 +1118,13 @@ impl TryFrom<&mut Peekable<Lexer>> for ParserNode {
                                 let Ok(next) = lex.peek_any() else {
                                     break;
                                 };
-                                if let TokenType::Newline = next.token_type() {
-                                    // consume newline
-                                    lex.get_any()?;
+                                if matches!(
+                                    next.token_type(),
+                                    TokenType::Newline | TokenType::Comment(_)
+                                ) {
+                                    // consume newline (a comment at the end of
+                                    // a line does not end the list either)
+                                    lex.lexer.next();
                                 } else if let Ok(imm) = next.as_imm() {
                                     // try to get immediate
                                     lex.get_any()?;
